@@ -126,6 +126,31 @@ func coreSuite() []modelSpec {
 	add("composition", "children ending in a label", func(m *model) *Obj {
 		return m.seq(m.opaqueChild(true, true), m.alt(m.opaqueChild(true, true), m.opaqueChild(true, true)), m.query(m.opaqueChild(true, true)))
 	})
+	// every operator directly under every operator: an emitter that special-cases
+	// the *type* of a child (rather than treating it by contract) is exercised here
+	s = append(s, genSpecs("two-level", twoLevel())...)
+	// … and every terminal / leaf type directly under every operator
+	leaves := []func() *mexpr{
+		func() *mexpr { return &mexpr{Op: "char", S: "a"} },
+		func() *mexpr { return &mexpr{Op: "range", S: "bd"} },
+		func() *mexpr { return me("dot") },
+		func() *mexpr { return me("pred") },
+		func() *mexpr { return me("act") },
+	}
+	var lx []*mexpr
+	for _, lf := range leaves {
+		for _, u := range unaryOps {
+			lx = append(lx, me(u, lf()))
+		}
+		lx = append(lx, me("alt", lf(), me("e")), me("alt", me("e"), lf()), me("seq", lf(), me("e")), me("alt", lf(), lf(), me("nil")))
+	}
+	var wf []*mexpr
+	for _, x := range lx {
+		if x.wellFormed() {
+			wf = append(wf, x)
+		}
+	}
+	s = append(s, genSpecs("operator over leaf", wf)...)
 	return s
 }
 
